@@ -312,13 +312,18 @@ ConcTargets(C, p, W) ==
   {tr \in (1..Len(p.tg)) \X (1..2) \X W :
      LET t == p.tg[tr[1]] IN t.id \in DOMAIN C /\ tr[2] <= Len(C[t.id]) /\ MayHit(t, tr[3])}
 
+(* The members of gamma(v) a write of v may store.  Like the absolute part / top flag of a   *)
+(* pointer, a value of unknown origin (top flag) is NOT a pointer to an object of the list:  *)
+(* the pointer-target sets only track pointers of known origin (the code's own assumption).  *)
+WMembers(v, CU) == {m \in CU : InG(m, v) /\ (m >= 100 => v.rel[m \div 100] # ABSENT)}
+
 (* The concrete successors of a memory C (of one list) under an operation, as SETS.        *)
 \* the write lands on one concrete target with one member of gamma(v) (members from CU), or -
 \* if the pointer has an absolute part / the top flag, or the write is only possible - nowhere
 CWrite(C, p, v, maySkip, CU, W) ==
   (IF p.abs \/ p.top \/ maySkip THEN {C} ELSE {})
   \cup {[C EXCEPT ![p.tg[tr[1]].id][tr[2]] = FlatWrite(@, tr[3], v.s, m)] :
-          tr \in ConcTargets(C, p, W), m \in {m \in CU : InG(m, v)}}
+          tr \in ConcTargets(C, p, W), m \in WMembers(v, CU)}
 
 \* what a read through q of s bytes may concretely return
 ConcReads(C, q, s, W) ==
